@@ -127,7 +127,7 @@ func runGenCase(id string, idx int, gc genCase) J {
 	v := gc.version
 	codec := codecFor(gc.comp)
 	rec := J{"id": id, "kind": gc.kind, "version": int(v), "compression": gc.comp, "flags": int(f.Header.Flags),
-		"phase": gc.phase, "class": gc.class, "response": f.Header.IsResponse, "stream": int(f.Header.StreamId), "opcode": int(f.Header.OpCode)}
+		"phase": gc.phase, "variant": gc.class, "class": "", "response": f.Header.IsResponse, "stream": int(f.Header.StreamId), "opcode": int(f.Header.OpCode)}
 	rec["frame"] = hlib.CoqTerm(f)
 	rec["deterministic"] = hlib.CoqDeterministic(f)
 	checks := J{}
@@ -199,6 +199,11 @@ func runGenCase(id string, idx int, gc genCase) J {
 			rawBody = out.Bytes()
 		}
 		rec["raw_body"] = hex.EncodeToString(rawBody)
+	}
+
+	// known finding of the pinned LZ4 dependency: tag every body in which some 4-byte window repeats at distance 65536
+	if repeatsAt65536(rawBody) {
+		rec["class"] = "lz4-offset-65536"
 	}
 
 	// message EncodedLength = emitted message bytes
@@ -486,6 +491,19 @@ func runGenCase(id string, idx int, gc genCase) J {
 		rec["reencode_bytes_equal"] = bytes.Equal(enc, enc2) // informative only: not part of the property
 	}()
 	return rec
+}
+
+// repeatsAt65536: some 4-byte window of b occurs again exactly 65536 bytes later (pierrec/lz4 v4.0.3 may encode such
+// a match with offset 65536, which wraps to 0 in the block format: silent corruption).  Cheap over-approximation of
+// "the compressor picks that match".
+func repeatsAt65536(b []byte) bool {
+	const d = 65536
+	for i := 0; i+d+4 <= len(b); i++ {
+		if b[i] == b[i+d] && b[i+1] == b[i+d+1] && b[i+2] == b[i+d+2] && b[i+3] == b[i+d+3] {
+			return true
+		}
+	}
+	return false
 }
 
 var checkNames = []string{"roundtrip_equal", "length_fn_equal", "body_length_equal", "consumed_equal", "stream2", "raw_agree",
